@@ -14,6 +14,51 @@ from vlib.c19crs import coq_oz
 XY_CLS = {"XY": 0, "Resolution": 1, "Index2d": 2, "Shape2d": 3}
 
 
+def type_tree(g):
+    """independent structural description of a shapely geometry: type, has_z, coordinates, recursively"""
+    import shapely
+    if hasattr(g, "geoms"):
+        return (g.geom_type, bool(g.has_z), tuple(type_tree(x) for x in g.geoms))
+    rings = [shapely.get_coordinates(r, include_z=g.has_z).tolist() for r in getattr(g, "interiors", [])]
+    return (g.geom_type, bool(g.has_z), shapely.get_coordinates(g, include_z=g.has_z).tolist(), rings)
+
+
+def geometry_zoo():
+    """name -> shapely geometry: collections (homogeneous, mixed, nested, single member, empty, with a ring),
+    rings, 3D geometries, empties of each kind"""
+    from shapely.geometry import (GeometryCollection, LinearRing, LineString, MultiLineString, MultiPoint, MultiPolygon,
+                                  Point, Polygon)
+    ring = LinearRing([(0, 0), (1, 0), (1, 1), (0, 0)])
+    poly = Polygon([(0, 0), (10, 0), (10, 10), (0, 10)], [[(2, 2), (4, 2), (4, 4), (2, 2)]])
+    return {
+        "ring": ring, "ring-as-line": LineString([(0, 0), (1, 0), (1, 1), (0, 0)]), "exterior": poly.exterior, "interior": poly.interiors[0],
+        "gc-homogeneous": GeometryCollection([Point(1, 2), Point(3, 4)]),
+        "gc-mixed": GeometryCollection([Point(1, 2), LineString([(0, 0), (1, 1)]), poly]),
+        "gc-nested": GeometryCollection([GeometryCollection([Point(1, 2)]), LineString([(0, 0), (1, 1)])]),
+        "gc-single": GeometryCollection([Point(1, 2)]), "gc-empty": GeometryCollection(),
+        "gc-with-ring": GeometryCollection([ring, Point(1, 2)]),
+        "gc-nested-ring": GeometryCollection([GeometryCollection([ring]), Point(1, 2)]),
+        "point-3d": Point(1, 2, 3), "point-3d-other-z": Point(1, 2, 4), "point-2d": Point(1, 2),
+        "line-3d": LineString([(0, 0, 1), (1, 1, 2)]), "polygon-3d": Polygon([(0, 0, 1), (1, 0, 2), (1, 1, 3), (0, 0, 1)]),
+        "ring-3d": LinearRing([(0, 0, 1), (1, 0, 2), (1, 1, 3), (0, 0, 1)]), "multipoint-3d": MultiPoint([(0, 0, 1), (1, 1, 2)]),
+        "gc-3d": GeometryCollection([Point(1, 2, 3), LineString([(0, 0, 1), (1, 1, 2)])]),
+        "empty-point": Point(), "empty-line": LineString(), "empty-polygon": Polygon(), "empty-multipoint": MultiPoint(),
+        "empty-multiline": MultiLineString(), "empty-multipolygon": MultiPolygon(), "empty-ring": LinearRing(),
+        "polygon-with-hole": poly, "multipolygon": MultiPolygon([poly, Polygon([(20, 20), (21, 20), (21, 21)])]),
+    }
+
+
+def shapely_faithful(sg, route):
+    """does shapely itself carry this geometry through the route unchanged?  (the oracle contract the theorems assume:
+    geom_laws); route: 'pickle' (what Geometry pickling / deepcopy rely on) or 'shape' (what clone() / Geometry(g) rely on)"""
+    from shapely.geometry import shape
+    try:
+        back = pickle.loads(pickle.dumps(sg)) if route == "pickle" else shape(sg)
+    except Exception:  # noqa: BLE001
+        return False
+    return type_tree(back) == type_tree(sg)
+
+
 class Enc:
     """Encoder of real objects into Coq terms; keeps the oracle tables of the value cases."""
 
@@ -60,7 +105,7 @@ class Enc:
 
     # -- shapely ---------------------------------------------------------
     def geom_id(self, g) -> int:
-        k = g.wkb
+        k = (repr(type_tree(g)), g.wkb)      # WKB alone cannot tell a LinearRing from a LineString
         i = self.geoms.get(k)
         if i is None:
             i = len(self.geom_objs)
@@ -69,19 +114,18 @@ class Enc:
         return i
 
     def geometry(self, g) -> str:
-        from odc.geo.geom import Geometry
+        """[gjson] of the model = the serialised state of the geometry (Geometry.__getstate__ hands the shapely object
+        to pickle), [gload] = what unpickling gives"""
         i = self.geom_id(g.geom)
         if i not in self.gjson:
-            js = json.dumps(g.json, sort_keys=True)
+            js = pickle.dumps(g.geom, protocol=4)
             j = self.jsons.setdefault(js, len(self.jsons))
             self.gjson[i] = j
             if j not in self.gload:
-                self.gload[j] = self.geom_id(Geometry(g.json, None).geom)
-                # the loaded geometry must itself be covered by the tables
-                h = self.gload[j]
+                back = pickle.loads(js)
+                h = self.gload[j] = self.geom_id(back)
                 if h not in self.gjson:
-                    js2 = json.dumps(Geometry(g.json, None).json, sort_keys=True)
-                    self.gjson[h] = self.jsons.setdefault(js2, len(self.jsons))
+                    self.gjson[h] = self.jsons.setdefault(pickle.dumps(back, protocol=4), len(self.jsons))
                     self.gload.setdefault(self.gjson[h], h)
         return f"(mkGeom Z {cz(i)} {self.ocrs(g.crs)})"
 
@@ -348,6 +392,9 @@ def families(world, tier):
           ({"geom": "poly"}, polygon([(0, 0), (1, 0), (1, 2), (0, 2), (0, 0)], c0)),
           ({"geom": "line"}, line([(0, 0), (1, 2)], c0)), ({"geom": "line-rev"}, line([(1, 2), (0, 0)], c0))]
     gm += [({"crs": d}, point(1, 2, c)) for d, c in crs_small[1:]]
+    # collections, rings, 3D, empties: those shapely itself carries faithfully through pickle and shape()
+    gm += [({"zoo": k}, Geometry(sg, c0)) for k, sg in geometry_zoo().items()
+           if shapely_faithful(sg, "pickle") and shapely_faithful(sg, "shape")]
     fam["Geometry"] = gm
 
     # near-identical float fields: one field perturbed at several magnitudes d (and 2d, so that a, a+d, a+2d
@@ -400,4 +447,9 @@ def observe_pair(a, b):
 
 
 def clones(v):
-    return {"pickle": pickle.loads(pickle.dumps(v)), "copy": copy.copy(v), "deepcopy": copy.deepcopy(v)}
+    from odc.geo.geom import Geometry
+    out = {"pickle": pickle.loads(pickle.dumps(v)), "copy": copy.copy(v), "deepcopy": copy.deepcopy(v)}
+    if isinstance(v, Geometry):
+        out["clone()"] = v.clone()
+        out["Geometry(g)"] = Geometry(v)
+    return out
